@@ -653,14 +653,16 @@ class FmtStr:
         counter = 0
         parts = []
         for chunk in self.chunks:
-            if index.start < counter + chunk.width and index.stop > counter:
+            if index.start < counter + chunk.width and index.stop >= counter:
                 start = max(0, index.start - counter)
                 end = min(index.stop - counter, chunk.width)
                 if end - start == chunk.width:
                     parts.append(chunk)
                 else:
+                    # a negative start tells width_aware_slice that the range began
+                    # in an earlier run, so leading combining characters belong to it
                     s_part = width_aware_slice(
-                        chunk.s, max(0, index.start - counter), index.stop - counter
+                        chunk.s, index.start - counter, index.stop - counter
                     )
                     parts.append(Chunk(s_part, chunk.atts))
             counter += chunk.width
